@@ -1,5 +1,416 @@
-"""stub"""
+"""C07 — global declarations are reported completely, later ones winning (DESIGN.md §4 C07)."""
+from __future__ import annotations
+
+import ast
+
+from ..core import guards
+from ..core import pyfacts as pf
+from ..core.callgraph import callgraph
+from ..core.larkfacts import grammar_facts
+from ..core.match import phi_alts, txt
 from ..core.source import AnchorMissing
-PROP="C07"
+from .common import DEC, DECGRAMMAR, accessor_sig, ckey, enclosing, fn, returns, stmt_of, where
+
+PROP = "C07"
+FILES = [DEC, DECGRAMMAR]
+EXPLANATION = (
+    "C07.1 every statement kind of the grammar's `line` rule is read by a find_data literal reachable from a public "
+    "DecFileParser query (exhaustiveness over the call graph); C07.2 every find_data literal names a tree of the "
+    "grammar; C07.3/4 each statement accessor is type-checked against every child word of its rule and its flow "
+    "signature (which child, which conversion, key vs value) equals the reviewed table; C07.5 write mode: document-"
+    "order overwrite for dict queries, last flag for PHOTOS and `no` when absent, lineshape loops raise exactly on a "
+    "repeated key; C07.6 conversion chains int→float→identity and float→identity; C07.7 default width is the aliased "
+    "particle's width divided by GeV; C07.8 each public query returns its accessor applied to self._parsed_dec_file.")
+NOT_DECIDED = ["numeric value of the reference width (particle data)", "Lark's document order of find_data (trusted)"]
+G = DECGRAMMAR
+
+
 def run(ctx, ss):
-    raise AnchorMissing("rules not built yet")
+    for r, f in (("C07.1", c07_1), ("C07.2", c07_2), ("C07.4", c07_4), ("C07.5", c07_5),
+                 ("C07.6", c07_6), ("C07.7", c07_7), ("C07.8", c07_8)):
+        ctx.guard(r, f, ss)
+
+
+def _find_data_literals(node):
+    out = []
+    for c in pf.calls_in(node):
+        if isinstance(c.func, ast.Attribute) and c.func.attr == "find_data" and c.args and isinstance(c.args[0], ast.Constant):
+            out.append((c, c.args[0].value))
+    return out
+
+
+def c07_1(ctx, ss):
+    gf = grammar_facts(ss, G)
+    kinds = gf.line_alternatives()
+    cg = callgraph(ss)
+    mf = pf.module_facts(ss, DEC)
+    cf = mf.classes.get("DecFileParser")
+    if cf is None:
+        raise AnchorMissing("class DecFileParser not found")
+    public = [m for n, m in cf.methods.items() if not n.startswith("_")]
+    reach = cg.reach([m.key for m in public])
+    lits = set()
+    for k in reach:
+        for _, lit in _find_data_literals(cg.funcs[k].node):
+            lits.add(lit)
+    ctx.count("call_graph_functions", len(reach))
+    ctx.count("public_queries", len(public))
+    for kind in sorted(kinds):
+        k = f"{G}:line:{kind}"
+        if kind in lits:
+            ctx.holds("C07.1", k, f"src/decaylanguage/{G}", f"statement kind `{kind}` is read by a public query", 1)
+        else:
+            ctx.violation("C07.1", k, f"src/decaylanguage/{G}", f"statement kind `{kind}` of the grammar is reported by no public DecFileParser query (statement not accounted for)")
+    ctx.floor("C07.1", "statement kinds", len(kinds), 16)
+
+
+def c07_2(ctx, ss):
+    gf = grammar_facts(ss, G)
+    mf = pf.module_facts(ss, DEC)
+    n = 0
+    for q, ff in mf.funcs.items():
+        if ff.parent_func:
+            continue
+        for c, lit in _find_data_literals(ff.node):
+            n += 1
+            if lit in gf.tree_names:
+                ctx.holds("C07.2", ckey(ff, c), where(ff, c), f"find_data('{lit}') names a tree of the grammar", 1)
+            else:
+                ctx.violation("C07.2", ckey(ff, c), where(ff, c), f"find_data('{lit}') names no tree of {G}: the query silently reports nothing")
+    ctx.count("find_data_sites", n)
+    ctx.floor("C07.2", "find_data literal sites", n, 22)
+
+
+SPEC4 = {
+    "get_charge_conjugate_decays": "sorted[start//cdecay/0:LABEL]",
+    "get_decays2copy_statements": "{start//copydecay/0:label/0:LABEL: start//copydecay/1:label/0:LABEL}",
+    "get_definitions": "{start//define/0:LABEL: float(start//define/1:SIGNED_NUMBER)}",
+    "get_aliases": "{start//alias/0:LABEL: start//alias/1:LABEL}",
+    "get_charge_conjugate_defs": "{start//chargeconj/0:LABEL: start//chargeconj/1:LABEL}",
+    "get_model_aliases": "{start//model_alias//tokens: [start//model_alias//tokens]}",
+    "get_particle_property_definitions":
+        "{start//particle_def/0:LABEL: {('mass' | 'width'): ((Particle.from_evtgen_name((start//particle_def/0:LABEL | "
+        "{start//alias/0:LABEL: start//alias/1:LABEL}.get(start//particle_def/0:LABEL, start//particle_def/0:LABEL))).width Div GeV) | "
+        "float(start//particle_def/1:SIGNED_NUMBER) | float(start//particle_def/2:SIGNED_NUMBER))}}",
+    "get_pythia_definitions":
+        "{start//pythia_def/0:LABEL_PYTHIA8_COMMANDS: {f\"{start//pythia_def/1:LABEL}:{start//pythia_def/2:LABEL}\": "
+        "(float(start//pythia_def/3:LABEL) | float(start//pythia_def/3:SIGNED_NUMBER) | start//pythia_def/3:LABEL | start//pythia_def/3:SIGNED_NUMBER)}}",
+    "get_lineshape_settings":
+        "{(start//changemasslimit/1:LABEL | start//inc_factor/1:LABEL | start//ls_def/1:LABEL | start//setlsbw/0:LABEL): "
+        "{('BlattWeisskopf' | 'lineshape' | f\"{start//changemasslimit/0:LABEL_CHANGE_MASS}\" | f\"{start//inc_factor/0:LABEL_INCLUDE_FACTOR}\"): "
+        "(False | True | float(start//changemasslimit/2:SIGNED_NUMBER) | float(start//setlsbw/1:SIGNED_NUMBER) | start//ls_def/0:LABEL_LINESHAPE)}}",
+    "get_lineshapePW_definitions": "[([start//setlspw/[:-1]:LABEL], int(start//setlspw/3:INT))]",
+    "get_global_photos_flag": "(PhotosEnum.no | PhotosEnum.yes)",
+}
+JETSET = ("{re.compile(…).match(start//jetset_def/0:LABEL).groupdict()['pname']: "
+          "{int(re.compile(…).match(start//jetset_def/0:LABEL).groupdict()['pnumber']): "
+          "(float(start//jetset_def/1:SIGNED_NUMBER) | int(start//jetset_def/1:SIGNED_NUMBER) | start//jetset_def/1:SIGNED_NUMBER)}}")
+
+
+def c07_4(ctx, ss):
+    gf = grammar_facts(ss, G)
+    spec = dict(SPEC4)
+    spec["get_jetset_definitions"] = JETSET
+    for q, want in spec.items():
+        sig, errs, unk, tt = accessor_sig(ss, gf, DEC, q, "parsed_file", "start")
+        ff = pf.func(ss, DEC, q)
+        k = f"{DEC}:{q}"
+        if errs:
+            ctx.violation("C07.3", k + " :: type", where(ff, ff.node), f"{q}: {errs[0]}", len(tt.find_data_literals) + 1)
+            continue
+        ctx.holds("C07.3", k + " :: type", where(ff, ff.node), f"{q}: every index / attribute is valid on every child word of its rule", len(tt.find_data_literals) + 1)
+        if sig == want:
+            ctx.holds("C07.4", k, where(ff, ff.node), f"{q} = {sig[:160]}", 2)
+        elif unk:
+            ctx.undecided("C07.4", k, where(ff, ff.node), f"{q}: flow signature not understood: {unk[:2]} :: {sig[:160]}")
+        else:
+            ctx.violation("C07.4", k, where(ff, ff.node), f"{q} reports `{sig}`; the reviewed reading of the statement is `{want}`", 2)
+    ctx.count("accessors", len(spec))
+
+
+DICT_COMP = ["get_decays2copy_statements", "get_definitions", "get_aliases", "get_charge_conjugate_defs", "get_particle_property_definitions"]
+BUILDER_OVERWRITE = ["get_pythia_definitions", "get_jetset_definitions"]
+LS_LOOPS = ["ls_def", "setlsbw", "changemasslimit", "inc_factor"]
+
+
+def _direct_find_data(it: ast.AST, lit: str | None = None) -> bool:
+    return isinstance(it, ast.Call) and isinstance(it.func, ast.Attribute) and it.func.attr == "find_data" \
+        and isinstance(it.func.value, ast.Name) and it.func.value.id == "parsed_file" \
+        and (lit is None or (it.args and isinstance(it.args[0], ast.Constant) and it.args[0].value == lit))
+
+
+def c07_5(ctx, ss):
+    # (a) dict comprehensions directly over find_data: later statement overwrites earlier
+    for q in DICT_COMP:
+        ff, flow = fn(ss, DEC, q)
+        comps = [n for n in pf.walk_no_nested(ff.node) if isinstance(n, ast.DictComp)]
+        rets = [r for r in returns(ff) if r.value is not None and isinstance(r.value, ast.DictComp)]
+        k = ckey(ff, None, "overwrite")
+        if not rets:
+            # loop-with-assignment idiom
+            sites = [s for s in pf.iter_stmts(ff.node.body) if isinstance(s, ast.Assign)
+                     and any(isinstance(t, ast.Subscript) for t in s.targets)]
+            if not sites:
+                raise AnchorMissing(f"{q}: neither a dict comprehension nor a store loop")
+            for s in sites:
+                lp = enclosing(ff, s, (ast.For,))
+                conds = [c for c in guards.path_conditions(ff.node, s, stop_at=lp[0] if lp else None) if c[0] == "if"]
+                if lp and _direct_find_data(flow.expand(lp[0].iter)) and not conds:
+                    ctx.holds("C07.5", k, where(ff, s), f"{q}: unconditional store in document order (later wins)", 2)
+                else:
+                    ctx.violation("C07.5", k, where(ff, s), f"{q}: the store is guarded or the statements are not visited in document order: a later declaration may not win")
+            continue
+        dc = rets[0].value
+        g = dc.generators
+        it = flow.expand(g[0].iter) if len(g) == 1 else None
+        if len(g) == 1 and not g[0].ifs and _direct_find_data(it):
+            ctx.holds("C07.5", k, where(ff, rets[0]), f"{q}: dict comprehension directly over find_data (document order, later wins)", 2)
+        else:
+            ctx.violation("C07.5", k, where(ff, rets[0]),
+                          f"{q}: statements are filtered / reordered before the dict is built (`{txt(it)[:80] if it is not None else '?'}`): the later declaration no longer wins")
+    # (b) builder loops with update / setitem
+    for q in BUILDER_OVERWRITE:
+        ff, flow = fn(ss, DEC, q)
+        loops = [n for n in pf.walk_no_nested(ff.node) if isinstance(n, ast.For) and "find_data" in txt(n.iter)]
+        if len(loops) != 1:
+            raise AnchorMissing(f"{q}: expected one loop over find_data")
+        lp = loops[0]
+        k = ckey(ff, None, "overwrite")
+        if not _direct_find_data(flow.expand(lp.iter)):
+            ctx.violation("C07.5", k, where(ff, lp), f"{q}: statements are not visited in document order (`{txt(lp.iter)}`)")
+            continue
+        bad = [c for c in pf.calls_in(lp) if isinstance(c.func, ast.Attribute) and c.func.attr == "setdefault"]
+        # inner stores must not be guarded by "inner key not in"
+        inner_guard = False
+        for s in pf.iter_stmts(lp.body):
+            if isinstance(s, (ast.Assign, ast.Expr)):
+                for kind, e, pol in guards.path_conditions(lp, s):
+                    if kind != "if":
+                        continue
+                    for cmp_ in [x for x in ast.walk(e) if isinstance(x, ast.Compare)]:
+                        if any(isinstance(o, (ast.In, ast.NotIn)) for o in cmp_.ops):
+                            # allowed: membership test of the OUTER key in the outer dict (a plain name)
+                            if not isinstance(cmp_.comparators[0], ast.Name):
+                                inner_guard = True
+        if bad or inner_guard:
+            ctx.violation("C07.5", k, where(ff, lp), f"{q}: an existing inner key is kept (setdefault / membership guard): the first declaration wins")
+        else:
+            ctx.holds("C07.5", k, where(ff, lp), f"{q}: update / item store in document order (later wins)", 3)
+    # (c) PHOTOS flag: last one, `no` when empty
+    ff, flow = fn(ss, DEC, "get_global_photos_flag")
+    rets = returns(ff)
+    k = ckey(ff, None, "last-flag")
+    empties = []
+    lasts = []
+    for r in rets:
+        conds = guards.path_conditions(ff.node, r)
+        ex = flow.expand(r.value)
+        empty_guard = any(kind == "if" and ((isinstance(e, ast.UnaryOp) and isinstance(e.op, ast.Not) and pol) or
+                                            (not isinstance(e, ast.UnaryOp) and not pol and isinstance(e, ast.Name)))
+                          for kind, e, pol in conds)
+        if empty_guard:
+            empties.append((r, ex))
+        else:
+            lasts.append((r, ex))
+    ok_empty = len(empties) == 1 and txt(empties[0][1]) == "PhotosEnum.no"
+    if ok_empty:
+        ctx.holds("C07.5", k + " :: absent", where(ff, empties[0][0]), "no flag in the file => PhotosEnum.no", 1)
+    else:
+        ctx.violation("C07.5", k + " :: absent", where(ff, ff.node), "absence of a global PHOTOS flag is not reported as PhotosEnum.no")
+    okl = False
+    for r, ex in lasts:
+        t = txt(ex)
+        if isinstance(ex, ast.IfExp):
+            test = txt(ex.test)
+            # tuple(parsed_file.find_data('global_photos'))[-1].children[0].data == 'yes'
+            if "find_data('global_photos'))[-1].children[0].data == 'yes'" in test and txt(ex.body) == "PhotosEnum.yes" and txt(ex.orelse) == "PhotosEnum.no":
+                okl = True
+            elif "find_data('global_photos'))[-1].children[0].data == 'no'" in test and txt(ex.body) == "PhotosEnum.no" and txt(ex.orelse) == "PhotosEnum.yes":
+                okl = True
+            elif "find_data('global_photos'))[0]" in test:
+                ctx.violation("C07.5", k + " :: last", where(ff, r), "the FIRST of several global PHOTOS flags is reported, not the last")
+                return
+    if okl:
+        ctx.holds("C07.5", k + " :: last", where(ff, lasts[0][0]), "the last global_photos node decides; yes <=> its child is `yes`", 2)
+    else:
+        ctx.violation("C07.5", k + " :: last", where(ff, ff.node),
+                      f"the reported PHOTOS flag is not `yes iff the LAST global_photos node is yes`: {[txt(x)[:120] for _, x in lasts]}")
+    # (d) lineshape loops: raise exactly when the key is already present
+    ff, flow = fn(ss, DEC, "get_lineshape_settings")
+    loops = {}
+    for n in pf.walk_no_nested(ff.node):
+        if isinstance(n, ast.For):
+            it = flow.expand(n.iter)
+            if _direct_find_data(it):
+                loops[it.args[0].value] = n
+    for lit in LS_LOOPS:
+        k = ckey(ff, None, f"repeat:{lit}")
+        if lit not in loops:
+            ctx.violation("C07.5", k, where(ff, ff.node), f"lineshape statements `{lit}` are no longer visited in document order by their own loop")
+            continue
+        lp = loops[lit]
+        raises = [r for r in ast.walk(lp) if isinstance(r, ast.Raise)]
+        stores = [s for s in pf.iter_stmts(lp.body) if isinstance(s, ast.Assign) and any(isinstance(t, ast.Subscript) for t in s.targets)]
+        if not raises:
+            ctx.violation("C07.5", k, where(ff, lp), f"a repeated `{lit}` setting is no longer reported as an error")
+            continue
+        ok = True
+        why = ""
+        for r in raises:
+            conds = [c for c in guards.path_conditions(lp, r) if c[0] == "if"]
+            # each raise must be reached exactly when the (particle, key) is already present: all conditions are
+            # membership tests with positive polarity (or `not in` with negative)
+            for kind, e, pol in conds:
+                if not (isinstance(e, ast.Compare) and len(e.ops) == 1 and isinstance(e.ops[0], (ast.In, ast.NotIn))):
+                    ok, why = False, f"raise guarded by `{txt(e)[:60]}`"
+                elif (isinstance(e.ops[0], ast.In)) != pol:
+                    ok, why = False, f"raise reached when the key is ABSENT (`{txt(e)[:60]}` is {pol})"
+            if not conds:
+                ok, why = False, "unconditional raise"
+        for s in stores:
+            conds = [c for c in guards.path_conditions(lp, s) if c[0] == "if"]
+            for kind, e, pol in conds:
+                if not (isinstance(e, ast.Compare) and len(e.ops) == 1 and isinstance(e.ops[0], (ast.In, ast.NotIn))):
+                    ok, why = False, f"store guarded by `{txt(e)[:60]}`"
+        if ok:
+            ctx.holds("C07.5", k, where(ff, lp), f"`{lit}`: stores on first sight, raises when the key is already present", len(raises) + len(stores))
+        else:
+            ctx.violation("C07.5", k, where(ff, lp), f"`{lit}`: {why}")
+
+
+def _chain(fnode: ast.FunctionDef, param: str) -> list[str]:
+    """First-success conversion chain of a try/except ladder: ['int', 'float', 'id']."""
+    out = []
+
+    def walk(body):
+        for st in body:
+            if isinstance(st, ast.Try):
+                walk(st.body)
+                for h in st.handlers:
+                    walk(h.body)
+                return
+            if isinstance(st, ast.Return) and st.value is not None:
+                v = st.value
+                if isinstance(v, ast.Call) and isinstance(v.func, ast.Name) and len(v.args) == 1 and isinstance(v.args[0], ast.Name) \
+                        and v.args[0].id == param and not v.keywords:
+                    out.append(v.func.id)
+                elif isinstance(v, ast.Name) and v.id == param:
+                    out.append("id")
+                else:
+                    out.append("?" + txt(v)[:40])
+                return
+    walk(fnode.body)
+    return out
+
+
+def c07_6(ctx, ss):
+    for q, want in (("get_jetset_definitions.to_int_or_float", ["int", "float", "id"]), ("_str_or_float", ["float", "id"])):
+        ff, flow = fn(ss, DEC, q)
+        got = _chain(ff.node, ff.params[0])
+        k = ckey(ff, None, "chain")
+        if got == want:
+            ctx.holds("C07.6", k, where(ff, ff.node), f"{q}: first-success chain {' → '.join(got)}", len(got))
+        else:
+            ctx.violation("C07.6", k, where(ff, ff.node), f"{q}: conversion chain is {' → '.join(got)}, expected {' → '.join(want)} "
+                          "(e.g. JetSet integers would be reported as floats)")
+    # yes/no words of IncludeBirthFactor / IncludeDecayFactor
+    ff, flow = fn(ss, DEC, "_str_to_bool")
+    p0 = ff.params[0]
+    seen = {}
+    for r in returns(ff):
+        conds = [c for c in guards.path_conditions(ff.node, r) if c[0] == "if" and c[2]]
+        for kind, e, pol in conds:
+            if isinstance(e, ast.Compare) and len(e.ops) == 1 and isinstance(e.ops[0], ast.Eq) and txt(e.left) == p0 \
+                    and isinstance(e.comparators[0], ast.Constant) and isinstance(r.value, ast.Constant):
+                seen[e.comparators[0].value] = r.value.value
+    falls = flow.cfg.reachable(flow.cfg.entry, flow.cfg.exit, avoid={flow.cfg.node_of(r) for r in returns(ff)},
+                               skip_labels=("exc", "raise", "assertfail"))
+    if seen == {"yes": True, "no": False} and not falls:
+        ctx.holds("C07.6", ckey(ff, None, "yes-no"), where(ff, ff.node), "_str_to_bool: 'yes'→True, 'no'→False, anything else raises", 3)
+    else:
+        ctx.violation("C07.6", ckey(ff, None, "yes-no"), where(ff, ff.node), f"_str_to_bool maps {seen} (fall-through without raise: {falls})")
+    # the chain is applied to the value token at both store sites
+    ff, flow = fn(ss, DEC, "get_jetset_definitions")
+    calls = [c for c in pf.calls_in(ff.node, nested=False) if isinstance(c.func, ast.Name) and c.func.id == "to_int_or_float"]
+    if len(calls) < 1:
+        ctx.violation("C07.6", ckey(ff, None, "applied"), where(ff, ff.node), "JetSet values no longer go through to_int_or_float")
+    else:
+        ctx.holds("C07.6", ckey(ff, None, "applied"), where(ff, calls[0]), f"to_int_or_float applied at {len(calls)} store site(s)", len(calls))
+
+
+def c07_7(ctx, ss):
+    ff, flow = fn(ss, DEC, "get_particle_property_definitions.get_set_width_or_default")
+    rets = returns(ff)
+    dflt = []
+    for r in rets:
+        conds = [c for c in guards.path_conditions(ff.node, r) if c[0] == "if"]
+        if not any(pol for _, _, pol in conds):
+            dflt.append(r)
+    if len(dflt) != 1:
+        raise AnchorMissing("get_set_width_or_default: default branch not identified")
+    r = dflt[0]
+    ex = flow.expand(r.value)
+    k = ckey(ff, None, "default-width")
+    ok_div = False
+    core = None
+    if isinstance(ex, ast.BinOp) and isinstance(ex.op, ast.Div) and isinstance(ex.right, ast.Name) and ex.right.id == "GeV":
+        ok_div, core = True, ex.left
+    elif isinstance(ex, ast.BinOp) and isinstance(ex.op, ast.Mult):
+        for a, b in ((ex.left, ex.right), (ex.right, ex.left)):
+            if isinstance(b, ast.BinOp) and isinstance(b.op, ast.Div) and isinstance(b.left, ast.Constant) and b.left.value in (1, 1.0) \
+                    and isinstance(b.right, ast.Name) and b.right.id == "GeV":
+                ok_div, core = True, a
+    mf = pf.module_facts(ss, DEC)
+    gev_ok = mf.imports.get("GeV", ("", ""))[0].startswith("hepunits")
+    if not ok_div or not gev_ok:
+        ctx.violation("C07.7", k, where(ff, r), f"default width `{txt(ex)[:120]}` is not divided by hepunits.GeV (reported in MeV instead of GeV)")
+        return
+    t = txt(core)
+    ok_w = isinstance(core, ast.Attribute) and core.attr == "width" and isinstance(core.value, ast.Call) \
+        and txt(core.value.func) == "Particle.from_evtgen_name"
+    arg = core.value.args[0] if ok_w and core.value.args else None
+    ok_alias = False
+    if arg is not None:
+        for a in phi_alts(arg):
+            pass
+        ta = txt(arg)
+        ok_alias = ".get(children[0].value, children[0].value)" in ta and "aliases" in ta
+    if ok_w and ok_alias:
+        ctx.holds("C07.7", k, where(ff, r), "default width = Particle.from_evtgen_name(aliases.get(name, name)).width / GeV", 4)
+    elif ok_w:
+        ctx.violation("C07.7", k, where(ff, r), f"default width looks up `{txt(arg)[:100]}`: the alias is not resolved to the particle it stands for")
+    else:
+        ctx.violation("C07.7", k, where(ff, r), f"default width is `{t[:120]}`, not the reference width of the (aliased) particle")
+    # the aliases table is the file's own alias table
+    pff, pflow = fn(ss, DEC, "get_particle_property_definitions")
+    defs = [d for d in pflow.defs if d.name == "aliases"]
+    if len(defs) == 1 and defs[0].value is not None and txt(defs[0].value) == "get_aliases(parsed_file)":
+        ctx.holds("C07.7", ckey(pff, None, "aliases"), where(pff, defs[0].stmt), "aliases = get_aliases(parsed_file)", 1)
+    else:
+        ctx.violation("C07.7", ckey(pff, None, "aliases"), where(pff, pff.node), "the alias table used for the default width is not get_aliases(parsed_file)")
+
+
+WRAPPERS = {
+    "dict_decays2copy": "get_decays2copy_statements", "dict_definitions": "get_definitions",
+    "dict_model_aliases": "get_model_aliases", "dict_aliases": "get_aliases",
+    "dict_charge_conjugates": "get_charge_conjugate_defs",
+    "get_particle_property_definitions": "get_particle_property_definitions",
+    "dict_pythia_definitions": "get_pythia_definitions", "dict_jetset_definitions": "get_jetset_definitions",
+    "dict_lineshape_settings": "get_lineshape_settings", "list_lineshapePW_definitions": "get_lineshapePW_definitions",
+    "global_photos_flag": "get_global_photos_flag", "list_charge_conjugate_decays": "get_charge_conjugate_decays",
+}
+
+
+def c07_8(ctx, ss):
+    for m, acc in WRAPPERS.items():
+        ff, flow = fn(ss, DEC, f"DecFileParser.{m}")
+        rets = returns(ff)
+        k = ckey(ff, None, "wrapper")
+        want = f"{acc}(self._parsed_dec_file)"
+        if len(rets) == 1 and rets[0].value is not None and flow.text(rets[0].value) == want:
+            ctx.holds("C07.8", k, where(ff, rets[0]), f"{m}() = {want}", 1)
+        else:
+            got = [flow.text(r.value)[:100] for r in rets if r.value is not None]
+            ctx.violation("C07.8", k, where(ff, ff.node), f"{m}() returns {got}, not {want}")
+    ctx.count("functions", len(WRAPPERS))
+    ctx.floor("C07.8", "public wrappers", len(WRAPPERS), 12)
